@@ -60,24 +60,28 @@ pub enum Conduit {
 
 /// pass-through adaptors: every source element is pulled exactly once, in order
 pub const CHAIN_ADAPTORS: &[(&str, bool)] = &[
-    // (suffix, keeps elements numeric)
-    ("", true),
-    (".chain((0,))", true),
-    (".enumerate()", false),
-    (".intersperse(0)", true),
-    (".skip(0)", true),
-    (".step(1)", true),
-    (".take(2)", true),
-    (".zip(10..12)", false),
-    (".chunks(1)", false),
-    (".windows(1)", false),
-    (".peekable()", true),
-    (".keep(|v| true)", true),
-    (".each(|v| v)", true),
-    (".cycle().take(2)", true),
+    // (template, keeps elements numeric); {S} is the source `(a..=a + 1).each(|x| f(x))`
+    ("{S}", true),
+    ("{S}.chain((0,))", true),
+    ("{S}.enumerate()", false),
+    ("{S}.intersperse(0)", true),
+    ("{S}.skip(0)", true),
+    ("{S}.step(1)", true),
+    ("{S}.take(2)", true),
+    ("{S}.zip(10..12)", false),
+    ("{S}.chunks(1)", false),
+    ("{S}.windows(1)", false),
+    ("{S}.peekable()", true),
+    ("{S}.keep(|v| true)", true),
+    ("{S}.each(|v| v)", true),
+    ("{S}.cycle().take(2)", true),
     // elements that are skipped over are still evaluated: their errors must surface
-    (".skip(1)", true),
-    (".step(2)", true),
+    ("{S}.skip(1)", true),
+    ("{S}.step(2)", true),
+    // the source as the ARGUMENT of an adaptor
+    ("(10..12).zip({S})", false),
+    ("(0..0).chain({S})", true),
+    ("(7..8).chain({S})", true),
 ];
 
 /// consumers that pull everything
@@ -260,6 +264,12 @@ pub enum Stmt {
     Try(Box<Try>),
     Dump(u32),
     Expr(Expr),
+    /// `m0[0] = (l0, 1)`: an unhashable key - a natural error raised in the middle of a
+    /// container operation (the map must be unchanged afterwards)
+    MapIndexBadKey,
+    /// `i<v> = loop` / `try` / pre… / `break <value>` / `catch e` / handler… / `break -7`:
+    /// the break VALUE is evaluated inside the try block of a loop used as an expression
+    LoopTryBreak(u8, u32, Block, Expr, Block),
     /// `i<v> += e`
     AddAssign(u8, Expr),
     /// a multi-line method chain with the expression on a continuation line:
@@ -606,6 +616,19 @@ impl<'a> Gen<'a> {
                         Stmt::Expr(e)
                     } else {
                         continue;
+                    }
+                }
+                27 if self.r.chance(1, 3) => {
+                    if self.r.chance(1, 3) || !nested_ok || c.in_finally {
+                        Stmt::MapIndexBadKey
+                    } else {
+                        self.p.n_tries += 1;
+                        let id = self.p.n_tries;
+                        let cb = Ctx { depth: c.depth + 2, no_abrupt: true, in_try: true, ..c };
+                        let pre = self.block(cb, false);
+                        let val = self.int_expr(2, c);
+                        let handler = self.block(cb, false);
+                        Stmt::LoopTryBreak(self.r.below(3) as u8, id, pre, val, handler)
                     }
                 }
                 27 => match self.r.below(3) {
@@ -1080,6 +1103,19 @@ impl Printer {
                 self.line(indent, &format!("dump({}, i0, i1, i2, s0, l0, m0, GL)", 1000 + t.id));
             }
             Stmt::Dump(n) => self.line(indent, &format!("dump({n}, i0, i1, i2, s0, l0, m0, GL)")),
+            Stmt::MapIndexBadKey => self.line(indent, "m0[0] = (l0, 1)"),
+            Stmt::LoopTryBreak(v, id, pre, val, handler) => {
+                self.line(indent, &format!("i{v} = loop"));
+                self.line(indent + 1, "try");
+                self.block(pre, indent + 2);
+                let val = self.expr(val);
+                self.line(indent + 2, &format!("break {val}"));
+                self.line(indent + 1, "catch e");
+                self.line(indent + 2, &format!("caught({id}, e)"));
+                self.block(handler, indent + 2);
+                self.line(indent + 2, "break -7");
+                self.line(indent, &format!("dump({}, i0, i1, i2, s0, l0, m0, GL)", 1000 + id));
+            }
             Stmt::AddAssign(v, e) => {
                 let e = self.expr(e);
                 self.line(indent, &format!("i{v} += {e}"));
@@ -1268,8 +1304,9 @@ pub fn print(p: &Program, opts: &PrintOpts) -> Printed {
     for (ad, co) in pr.chains.iter() {
         helpers.push(format!("export C_CH{ad}_{co} = |f, a|"));
         helpers.push(format!(
-            "  (a..=a + 1).each(|x| f(x)){}{}",
-            CHAIN_ADAPTORS[*ad as usize].0, CHAIN_CONSUMERS[*co as usize].0
+            "  ({}){}",
+            CHAIN_ADAPTORS[*ad as usize].0.replace("{S}", "(a..=a + 1).each(|x| f(x))"),
+            CHAIN_CONSUMERS[*co as usize].0
         ));
         helpers.push("  return 0".to_string());
     }
